@@ -675,6 +675,11 @@ def gen_overlap_case(R):
         content = {"kernel_info_request": {}, "complete_request": {"code": "pri", "cursor_pos": 3}, "is_complete_request": {"code": "x = 1"},
                    "comm_info_request": {}}[t]
         b_ops.append({"t": t, "content": content, "ids": [R.choice(["b1", "beef", "0b0b0b"])], "ascii": True})
+    if R.bool(1, 3):
+        # a second execute request while the first cell is suspended (no prints: one console serves both cells, and the
+        # execution counter of overlapping cells is not specified - it is masked in the comparison)
+        val = R.choice(["7 * 6", "'a' + 'b'", "w = 5", "raise ValueError('late')"])
+        b_ops.insert(R.int(0, len(b_ops)), {"t": "execute_request", "content": {"code": R.choice(["bq = 3", "bq = 4\nbq + 1"])}, "ids": ["b1"], "ascii": True})
     return {"part": "overlap", "key": R.choice(["key-a1", "0123456789abcdef"]), "drain_yields": R.bool(),
             "a": {"t": "execute_request", "content": {"code": f"task.sleep({R.choice([0.02, 0.04])})\n{val}"}, "ids": [R.choice(["a1", "aaaa"])], "ascii": True},
             "b": b_ops, "val": val}
@@ -749,6 +754,17 @@ async def run_overlap(case):
             ob = {"who": f"B{k}", "shell": [summarize_reply(op, m, hdr_b, seen_ids, []) for m in mine], "iopub": seqb}
             exp.append({"who": f"B{k}", "shell": eb["shell"], "iopub": eb["iopub"][0]})
             obs.append(ob)
+        if any(op["t"] == "execute_request" for op in case["b"]):
+            def mask(x):
+                if isinstance(x, dict):
+                    return {k: (None if k == "execution_count" else mask(v)) for k, v in x.items() if k != "globals"}
+                if isinstance(x, list):
+                    if len(x) >= 2 and x[0] in ("execute_input", "execute_result") and isinstance(x[1], int):
+                        return [x[0], None] + [mask(v) for v in x[2:]]
+                    return [mask(v) for v in x]
+                return x
+            exp[:] = [mask(x) for x in exp]
+            obs[:] = [mask(x) for x in obs]
         known = [hdr_a] + [h for _, h, _ in hdrs_b]
         strays = [m.get("header", {}).get("msg_type") for _, m in shell_a + shell_b + iopub if m.get("parent") not in known]
         exp.append({"unattributed": []})
